@@ -206,8 +206,16 @@ class ConvexPolygon(Polygon):
         angles = np.mod(angles, 2 * np.pi)
         num_verts = len(self.vertices)
 
+        # Angles are measured counterclockwise about +z. If the normal points
+        # downward (vertices clockwise as seen from +z), use the opposite normal
+        # and traversal so that aligning the normal with +z does not mirror the
+        # polygon.
+        normal, vertices = self.normal, self.vertices
+        if normal[2] < 0:
+            normal, vertices = -normal, vertices[::-1]
+
         # Rearrange the verts so that we start with the lowest angle
-        verts, _ = _align_points_by_normal(self.normal, self.vertices - origin)
+        verts, _ = _align_points_by_normal(normal, vertices - origin)
         angles_to_vertices = np.arctan2(verts[:, 1], verts[:, 0])
         np.mod(angles_to_vertices, 2 * np.pi, out=angles_to_vertices)
 
